@@ -121,6 +121,18 @@ def sec_sf_cache(rep):
     b = sf.get_esf(on, {"Q2": 0.5, "x": 0.8})
     ok = (b.x, b.Q2) == (0.8, 0.5) and (a.x, a.Q2) == (0.5, 0.8) and a is not b
     rep.add(ob_eval("C14/get_esf/history: {x:.5,Q2:.8} then {Q2:.5,x:.8} in one cache", ok, detail=f"second request returned an object for x={b.x}, Q2={b.Q2}", inputs={} if ok else {"first": {"x": 0.5, "Q2": 0.8}, "second": {"Q2": 0.5, "x": 0.8}, "returned_for_second": {"x": b.x, "Q2": b.Q2}}, replay={"confirmed": True, "python": "sf.get_esf(on, {'x':0.5,'Q2':0.8}); sf.get_esf(on, {'Q2':0.5,'x':0.8}).x  # -> 0.5 instead of 0.8"}))
+    # points that differ in the last digits are different points: each request is answered with an object
+    # for exactly its own x and Q2 (a key that rounds or formats the kinematics merges them)
+    for tmc_mode in (0, 2):
+        rep.cases += 1
+        sfn = _Runner(H.make_configs(H.Sy().numeric({}), symbolic=False, tmc=tmc_mode)).get_sf(on)
+        close = [(0.3, 10.0), (0.3000000004, 10.0), (0.3, 10.0000000003), (float(np.nextafter(0.3, 1)), 10.0), (0.3, float(np.nextafter(10.0, 11))), (0.3, 10.0)]
+        got = []
+        for x_, q_ in close:
+            o_ = sfn.get_esf(on, {"x": x_, "Q2": q_}, use_raw=False)
+            got.append((o_.x, o_.Q2))
+        ok = got == close
+        rep.add(ob_eval(f"C14/get_esf/history: points differing in the last digits are answered each with its own object/TMC={tmc_mode}", ok, detail="own kinematics for every request" if ok else f"requested {close}, answered {got}", inputs={} if ok else {"requested": str(close), "answered_with_objects_for": str(got)}, replay={"confirmed": True, "python": "sf.get_esf(on, {'x': 0.3, 'Q2': 10.0}); sf.get_esf(on, {'x': 0.3000000004, 'Q2': 10.0}).x"}))
     # load: one object per entry, in order, via get_esf(use_raw=False); duplicates share the object
     sf2 = _Runner(H.make_configs(H.Sy().numeric({}), symbolic=False, tmc=0)).get_sf(on)
     kins = [{"x": 0.3, "Q2": 10.0}, {"x": 0.1, "Q2": 5.0}, {"x": 0.3, "Q2": 10.0}]
